@@ -60,10 +60,27 @@ class Battery:
         soc = max(self.cap, 0.0) / self.m["c0"]
         return (self.cap, piecewise(soc, self.m["volt"]), piecewise(soc, self.m["res"]))
 
+    def _ret(self, s_):
+        """The form in which the model hands its state to batt_life: a fresh tuple / list /
+        array, or one list object that the model keeps and updates in place (batt_life must
+        have logged the values it was given, not a reference to the model's state)."""
+        how = self.m.get("ret", "tuple")
+        if how == "shared":
+            if not hasattr(self, "buf"):
+                self.buf = [0.0, 0.0, 0.0]
+            self.buf[:] = s_
+            return self.buf
+        if how == "list":
+            return list(s_)
+        if how == "array":
+            import numpy as np
+            return np.array(s_)
+        return s_
+
     def pfunc(self):
         s_ = self.state()
         self.calls.append(("probe", s_))
-        return s_
+        return self._ret(s_)
 
     def dfunc(self, t, i):
         if len(self.calls) > self.m.get("max_calls", 5000):
@@ -71,7 +88,7 @@ class Battery:
         self.cap -= t * i / 3600.0
         s_ = self.state()
         self.calls.append(("deplete", float(t), float(i), s_))
-        return s_
+        return self._ret(s_)
 
 
 def battery_current(spec, batt, volt, rs, phase):
@@ -127,7 +144,9 @@ def body(case, stats):
                     (soc_cut, volt[-1][1]), (1.0, volt[-1][1])]
             cutoff = 0.75 * volt[-1][1]
     expect_calls = (m["cycles"] * len(phases)) if phases else 1000
-    model = {"c0": c0, "volt": volt, "res": m["res"], "max_calls": int(20 * expect_calls) + 50}
+    model = {"c0": c0, "volt": volt, "res": m["res"], "max_calls": int(20 * expect_calls) + 50,
+             "ret": m.get("ret", "tuple")}
+    stats.cls("callback_returns:" + model["ret"])
     bat = Battery(model)
     sys = B.build(spec)
     tags = {"run": 7}
@@ -276,6 +295,7 @@ def _models():
         "volt": volt, "res": res.map(lambda l: [(s_, r) for s_, r in _dedup(l)]),
         "cycles": st.floats(2.0, 30.0), "cut": st.floats(0.5, 1.02),
         "steps": st.integers(5, 60), "c0_abs": G.logf(0.01, 2000.0),
+        "ret": st.sampled_from(["tuple", "tuple", "list", "array", "shared", "shared"]),
     })
 
 
